@@ -158,6 +158,7 @@ class AirTouchSocket(Generic[comms.Hdr]):
         self._connecting = False
 
         self._background_tasks: set[asyncio.Task[Any]] = set()
+        self._connect_tasks: set[asyncio.Task[Any]] = set()
 
         self._reader: Optional[asyncio.StreamReader] = None
         self._writer: Optional[asyncio.StreamWriter] = None
@@ -171,7 +172,7 @@ class AirTouchSocket(Generic[comms.Hdr]):
     async def open_socket(self) -> None:
         """Open the socket to the AirTouch."""
         if not self.is_open:
-            self._schedule(self._connect())
+            self._schedule_connect()
             self.is_open = True
 
     async def close(self) -> None:
@@ -182,11 +183,16 @@ class AirTouchSocket(Generic[comms.Hdr]):
             self.is_open = False
             # Messages that were never sent must not go out on a later open.
             self._message_queue.clear()
+            # Connection attempts that are waiting for their retry delay or are
+            # still in progress are abandoned with the socket.
+            for task in list(self._connect_tasks):
+                if task is not asyncio.current_task():
+                    task.cancel()
             await self._disconnect()
             if self.is_open and not self.is_connected:
                 # Opened again while the connection was still being closed. The
                 # connection attempt made then was ignored, so make it now.
-                self._schedule(self._connect())
+                self._schedule_connect()
 
     async def send(self, message: comms.Message, retry_policy: RetryPolicy) -> None:
         """Send a message to the AirTouch.
@@ -292,9 +298,15 @@ class AirTouchSocket(Generic[comms.Hdr]):
         """Unsubscribe from receiving notifications when a message is received."""
         self._message_subscribers.discard(subscriber)
 
+    def _schedule_connect(self, delay: Optional[float] = None) -> None:
+        """Schedule a connection attempt, remembering it so close() can stop it."""
+        task = self._schedule(self._connect(), delay=delay)
+        self._connect_tasks.add(task)
+        task.add_done_callback(self._connect_tasks.discard)
+
     def _schedule(
         self, coro: Coroutine[Any, Any, Any], delay: Optional[float] = None
-    ) -> None:
+    ) -> asyncio.Task[Any]:
         """Schedule a co-routine to run in the background with an optional delay."""
         if delay:
             coro = _delay(coro, delay)
@@ -313,6 +325,7 @@ class AirTouchSocket(Generic[comms.Hdr]):
                     )
 
         task.add_done_callback(discard_task)
+        return task
 
     async def _connect(self) -> None:
         if not self.is_open:
@@ -353,7 +366,7 @@ class AirTouchSocket(Generic[comms.Hdr]):
 
         if self.is_open and not self.is_connected:
             # Connection failed, so retry after a small delay
-            self._schedule(self._connect(), delay=_CONNECT_RETRY_DELAY)
+            self._schedule_connect(delay=_CONNECT_RETRY_DELAY)
 
     async def _disconnect(self) -> None:
         _LOGGER.debug("_disconnect: is_connected=%s", self.is_connected)
@@ -378,7 +391,7 @@ class AirTouchSocket(Generic[comms.Hdr]):
         underlying socket.
         """
         await self._disconnect()
-        self._schedule(self._connect())
+        self._schedule_connect()
 
     async def _read(self) -> None:
         """The main read loop for the AirTouch socket."""
@@ -606,5 +619,11 @@ T = TypeVar("T")
 
 async def _delay(coro: Awaitable[T], delay: float) -> T:
     """Delays the execution of an awaitable."""
-    await asyncio.sleep(delay)
+    try:
+        await asyncio.sleep(delay)
+    except asyncio.CancelledError:
+        # Never started: close it so that it isn't reported as never awaited.
+        if isinstance(coro, Coroutine):
+            coro.close()
+        raise
     return await coro
